@@ -2,6 +2,7 @@ package sim
 
 import (
 	"bytes"
+	"errors"
 	"fmt"
 	"io"
 	"testing"
@@ -315,6 +316,13 @@ func TestC12Lru(t *testing.T) {
 				rs = NewSliceReader(data, sm, rapid.Uint64().Draw(rt, "oldsliceseed"), false, rapid.Bool().Draw(rt, "oldeofwith"))
 				Ev.Probe("old_file_reader_returns_short_reads")
 			}
+			// one read of the old file may fail (a transient I/O error); the caller seeks back and reads
+			// again: what it gets then must be the file's content, not whatever the failed fill left
+			flaky := &flakyRS{ReadSeeker: rs, FailAt: -1}
+			if rapid.IntRange(0, 3).Draw(rt, "flaky") == 0 {
+				flaky.FailAt = rapid.IntRange(1, 6).Draw(rt, "flakyat")
+			}
+			rs = flaky
 			if err := lf.Reset(rs); err != nil {
 				Violation(rt, "C12/lru-reset", "Reset: %v", err)
 				return
@@ -348,7 +356,19 @@ func TestC12Lru(t *testing.T) {
 				pa, pb := make([]byte, n), make([]byte, n)
 				var na int
 				var ea error
-				if p := Recover(func() { na, ea = lf.Read(pa) }); p != "" {
+				posBefore, _ := model.Seek(0, io.SeekCurrent)
+				p := Recover(func() { na, ea = lf.Read(pa) })
+				if p == "" && ea != nil && errors.Is(ea, ErrInjected) {
+					// the injected error: go back to where the read started and read again
+					Ev.Fault("transient_read_error_on_old_file", 1)
+					script = append(script, "(read failed: injected error; seek back, read again)")
+					if _, serr := lf.Seek(posBefore, io.SeekStart); serr != nil {
+						Violation(rt, "C12/lru-seek", "seek back after a failed read: %v", serr)
+						return
+					}
+					p = Recover(func() { na, ea = lf.Read(pa) })
+				}
+				if p != "" {
 					Violation(rt, "C12/lru-panic", "chunk %d entries %d size %d: %v panicked: %s", chunk, entries, size, script, p)
 					return
 				}
@@ -380,4 +400,19 @@ func TestC12Lru(t *testing.T) {
 			return map[string]interface{}{"chunk": chunk, "entries": entries, "size": size, "script": script}
 		})
 	})
+}
+
+// flakyRS fails its FailAt-th Read (1-based) with ErrInjected, once.
+type flakyRS struct {
+	io.ReadSeeker
+	FailAt int
+	reads  int
+}
+
+func (f *flakyRS) Read(p []byte) (int, error) {
+	f.reads++
+	if f.reads == f.FailAt {
+		return 0, ErrInjected
+	}
+	return f.ReadSeeker.Read(p)
 }
